@@ -196,3 +196,17 @@ Definition right_spec : re := Alt delim_spec (Seq colon ws_spec).
 Definition delim_nodot_cls : cls := [(0, 45); (47, 47); (59, 64); (91, 94); (96, 96); (123, 255)].
 Definition dot_cls : cls := [(46, 46)].
 Definition nondigit_cls : cls := [(0, 47); (58, 255)].
+
+(* ------------------------------------------------------------------ common/event: the String() of the events that carry an error *)
+
+(* EventOnOfferCreated (0), EventOnBrokerRendezvous (1), EventOnSnowflakeConnectionFailed (other):
+   fmt.Sprintf("<fixed text> %s", safelog.Scrub([]byte(e.Error.Error()))) *)
+Definition event_prefix (ty : N) : bytes :=
+  match ty with
+  | 0 => [111;102;102;101;114;32;99;114;101;97;116;105;111;110;32;102;97;105;108;117;114;101;32]  (* "offer creation failure " *)
+  | 1 => [98;114;111;107;101;114;32;102;97;105;108;117;114;101;32]                                 (* "broker failure " *)
+  | _ => [116;114;121;105;110;103;32;97;32;110;101;119;32;112;114;111;120;121;58;32]              (* "trying a new proxy: " *)
+  end.
+
+Definition event_string (fulls : list re) (ty : N) (err : bytes) : bytes :=
+  event_prefix ty ++ scrub fulls err.
